@@ -857,7 +857,8 @@ fn comp_oracle_inner(c: &CompCase, cl: &mut u64) -> Result<(), Failure> {
                 PermOp::Translocation => ("TranslocationMutation", TranslocationMutation::new::<TspP>()),
                 PermOp::CycleX { pc, both } => ("CycleCrossover", CycleCrossover::new::<TspP, usize>(pc.f(), *both)),
             };
-            let mut st = state_with(vec![inds(&pop)], *seed);
+            // permutation operators: one seed in four with a generator that first replays a script of edge-value words
+            let mut st = crate::fixtures::state_with_scripted(vec![inds(&pop)], *seed);
             run_comp(comp.as_ref(), &problem, &mut st, name, &at)?;
             let got = &stack_solutions(&st)[0];
             for g in got {
